@@ -64,7 +64,8 @@ class ExternalRaise(Exception):
 
 _EXC_PARENTS = {"FileNotFoundError": ["OSError", "Exception", "BaseException"], "OSError": ["Exception", "BaseException"],
                 "ValueError": ["Exception", "BaseException"], "EOFError": ["Exception", "BaseException"],
-                "TypeError": ["Exception", "BaseException"], "AssertionError": ["Exception", "BaseException"]}
+                "TypeError": ["Exception", "BaseException"], "AssertionError": ["Exception", "BaseException"],
+                "UnpicklingError": ["PickleError", "Exception", "BaseException"]}
 
 
 # ------------------------------------------------------------------------------------------
@@ -813,8 +814,31 @@ class Engine:
             if name in m.assigns:
                 if name in self.externals:
                     return self.externals[name]
-                # module-level constant: evaluate its defining expression symbolically
-                return self.ev(m.assigns[name], Env(None, {"__module__": mod}))
+                # module-level constant: evaluate its defining expression symbolically.  A module-level *mutable container*
+                # (an empty dict / list / set: the usual shape of a memo) is not a constant: it is state shared by all calls
+                # of the process, hence arbitrary at function entry (opaque dict, kept for the rest of the path) or outside
+                # the subset -- never a fresh empty container.
+                dn = m.assigns[name]
+                kind = None
+                if isinstance(dn, ast.Dict) and not dn.keys:
+                    kind = "dict"
+                elif isinstance(dn, (ast.List, ast.Set)) and not dn.elts:
+                    kind = "seq"
+                elif isinstance(dn, ast.Call) and isinstance(dn.func, (ast.Name, ast.Attribute)):
+                    fn = dn.func.id if isinstance(dn.func, ast.Name) else dn.func.attr
+                    if fn in ("dict", "OrderedDict", "defaultdict", "WeakValueDictionary", "WeakKeyDictionary"):
+                        kind = "dict"
+                    elif fn in ("list", "set", "deque"):
+                        kind = "seq"
+                if kind == "dict":
+                    v = OpaqueDict("{}.{}".format(mod, name))
+                    self.module_globals[(mod, name)] = v
+                    self.used_assumptions.add("module-level mutable dictionaries are arbitrary state at function entry (they may hold entries "
+                                              "from earlier calls in the same process)")
+                    return v
+                if kind == "seq":
+                    raise OutsideSubset("module-level mutable container {}.{} (state shared between calls) is not modelled".format(mod, name))
+                return self.ev(dn, Env(None, {"__module__": mod}))
         if name in self.externals:
             return self.externals[name]
         if name in self.spec_funcs:
@@ -1133,7 +1157,7 @@ class Engine:
                     if any(isinstance(d, ast.Name) and d.id == "staticmethod" for d in fnode.decorator_list):
                         return fr
                     return BoundMethod(base, fr)
-            if base.fields.get("__lazy_state__"):
+            if base.fields.get("__lazy_state__", True):    # unknown attributes are arbitrary state left by earlier calls (default)
                 base.fields[attr] = OpaqueDict("{}.{}".format(base.cls, attr))
                 return base.fields[attr]
             raise OutsideSubset("attribute {}.{} not modelled".format(base.cls, attr))
